@@ -5,7 +5,7 @@ import explore
 from props import session_common as sc
 from props.c04 import ref_deframe
 
-COQ_TARGETS = ['props/C18.vo']
+COQ_TARGETS = ['props/C18.vo', 'model/YSessionSx.vo']
 TRUSTED = sc.TRUSTED
 ASSUMPTIONS = sc.ASSUMPTIONS
 MIN_LEN = {1: 29, 2: 23, 3: 21, 4: 19, 5: 23, 128: 23}
